@@ -564,10 +564,11 @@ def constraints_as_safe_sequences_rule(prog: Program, rep, RID: str) -> int:
     n = 0
     for m in ci.methods.values():
         for c in calls_in(m.node):
-            if not ((dotted(c.func) or "").endswith("safe_sequences")):
-                continue
-            arg = kwarg(c, "edges_or_subpath_constraints_to_cover", 1)
-            if arg is None or norm(arg) != "self.subpath_constraints":
+            all_args = list(c.args) + [k.value for k in c.keywords]
+            direct = (dotted(c.func) or "").endswith("safe_sequences")
+            # or through a local helper that gets the function and its argument: add_safe_lists(safetypathcovers.safe_sequences, self.subpath_constraints, ...)
+            by_reference = any((dotted(a) or "").endswith("safe_sequences") for a in all_args)
+            if not (direct or by_reference) or not any(norm(a) == "self.subpath_constraints" for a in all_args):
                 continue
             n += 1
             key = f"AbstractPathModelDAG.{m.name}:constraints-as-safe-sequences"
